@@ -24,8 +24,9 @@ fn c09_pos_span() {
         Greater => assert!(p > s.end()),
     }
     match s.containment_exclusive(p) {
-        Less => assert!(p <= s.start()),
-        Equal => assert!(s.start() < p && p < s.end()),
+        // documented: the end itself is outside (`Greater`), the start inside
+        Less => assert!(p < s.start()),
+        Equal => assert!(s.start() <= p && p < s.end()),
         Greater => assert!(p >= s.end()),
     }
     // joining two spans covers both
